@@ -24,6 +24,14 @@ Proof.
   exists [(4, m_pos m, k)]. split; [reflexivity|]. constructor; [exact I|constructor].
 Qed.
 
+Lemma pad_push_ok : forall n m lo hi sk lo0,
+  run_ok lo hi (m_pos m + n) (event_at sk lo0) m (if 0 <? n then do_push n m else m).
+Proof.
+  intros n m lo hi sk lo0. destruct (N.ltb_spec 0 n) as [Hp|Hz].
+  - apply (opt_push_ok (Some n)).
+  - replace (m_pos m + n) with (m_pos m) by lia. apply run_ok_refl.
+Qed.
+
 Lemma opt_pop_ok : forall d k m lo hi sk lo0, k <= m_pos m ->
   exists m', (if 0 <? k then do_pop d k m else Some m) = Some m' /\
              run_ok lo hi (m_pos m - k) (event_at sk lo0) m m'.
@@ -130,14 +138,14 @@ Qed.
 
 Ltac inv H := inversion H; subst; clear H.
 
-(* a stateless expression publishes no state and leaves the offset context alone *)
+(* a stateless expression publishes no state *)
 Section Stateless.
   Variable g : sigenv.
   Variable ce : cenv.
   Hypothesis Hsig : sig_ok g ce.
 
   Lemma stateless_compile : forall e c k ss c',
-    stateful_expr g e = false -> compile_expr ce e c = Some (k, ss, c') -> ss = [] /\ c' = c.
+    stateful_expr g e = false -> compile_expr ce e c = Some (k, ss, c') -> ss = [].
   Proof.
     induction e as [z|x| | | |op a b IHa IHb|a IHa|x a b IHa IHb|cn t e' IHc IHt IHe|f args IHargs|a IHa|n a t IHa IHt]
       using expr_ind'; intros c k ss c' Hs Hc; cbn [stateful_expr] in Hs; try discriminate;
@@ -145,24 +153,26 @@ Section Stateless.
     - apply orb_false_elim in Hs. destruct Hs as [Hsa Hsb]. cbn [compile_expr] in Hc.
       destruct (compile_expr ce a c) as [[[ka sa] c1]|] eqn:Ha; [|discriminate].
       destruct (compile_expr ce b c1) as [[[kb sb] c2]|] eqn:Hb; [|discriminate].
-      inv Hc. destruct (IHa _ _ _ _ Hsa Ha) as [-> ->]. destruct (IHb _ _ _ _ Hsb Hb) as [-> ->]. auto.
+      inv Hc. rewrite (IHa _ _ _ _ Hsa Ha), (IHb _ _ _ _ Hsb Hb). reflexivity.
     - cbn [compile_expr] in Hc.
       destruct (compile_expr ce a c) as [[[ka sa] c1]|] eqn:Ha; [|discriminate].
       inv Hc. eauto.
     - apply orb_false_elim in Hs. destruct Hs as [Hsa Hsb]. cbn [compile_expr] in Hc.
       destruct (compile_expr ce a c) as [[[ka sa] c1]|] eqn:Ha; [|discriminate].
       destruct (compile_expr ce b c1) as [[[kb sb] c2]|] eqn:Hb; [|discriminate].
-      inv Hc. destruct (IHa _ _ _ _ Hsa Ha) as [-> ->]. destruct (IHb _ _ _ _ Hsb Hb) as [-> ->]. auto.
+      inv Hc. rewrite (IHa _ _ _ _ Hsa Ha), (IHb _ _ _ _ Hsb Hb). reflexivity.
     - apply orb_false_elim in Hs. destruct Hs as [Hs Hse]. apply orb_false_elim in Hs. destruct Hs as [Hsc Hst].
       cbn [compile_expr] in Hc.
       destruct (compile_expr ce cn c) as [[[kc sc] c1]|] eqn:Hcc; [|discriminate].
-      destruct (compile_expr ce t c1) as [[[kt st] c2]|] eqn:Hct; [|discriminate].
-      destruct (compile_expr ce e' c2) as [[[ke se] c3]|] eqn:Hce; [|discriminate].
-      destruct (IHc _ _ _ _ Hsc Hcc) as [-> ->]. destruct (IHt _ _ _ _ Hst Hct) as [-> ->].
-      destruct (IHe _ _ _ _ Hse Hce) as [-> ->]. inv Hc. auto.
+      destruct (consume c1) as [push0 [o0 ps0]].
+      destruct (compile_expr ce t (None, ps0)) as [[[kt st] c2]|] eqn:Hct; [|discriminate].
+      destruct (consume c2) as [pusht ct].
+      destruct (compile_expr ce e' _) as [[[ke se] c3]|] eqn:Hce; [|discriminate].
+      destruct (consume c3) as [pushe cte]. inv Hc.
+      rewrite (IHc _ _ _ _ Hsc Hcc), (IHt _ _ _ _ Hst Hct), (IHe _ _ _ _ Hse Hce). reflexivity.
     - apply orb_false_elim in Hs. destruct Hs as [Hsa Hsf]. rewrite compile_call_eq in Hc.
       destruct (compile_args ce args c) as [[[ks ss1] c1]|] eqn:Hargs; [|discriminate].
-      assert (Hargs' : ss1 = [] /\ c1 = c).
+      assert (Hargs' : ss1 = []).
       { clear Hc Hsf. revert c ks ss1 c1 Hsa Hargs.
         induction IHargs as [|a args Ha _ IH]; intros c ks ss1 c1 Hsa Hargs.
         - cbn in Hargs. inv Hargs. auto.
@@ -170,9 +180,8 @@ Section Stateless.
           rewrite compile_args_cons in Hargs.
           destruct (compile_expr ce a c) as [[[ka sa] c2]|] eqn:Hca; [|discriminate].
           destruct (compile_args ce args c2) as [[[ks' ss'] c3]|] eqn:Hcr; [|discriminate].
-          inv Hargs. destruct (Ha _ _ _ _ Hsa Hca) as [-> ->].
-          destruct (IH _ _ _ _ Hsr Hcr) as [-> ->]. auto. }
-      destruct Hargs' as [-> ->].
+          inv Hargs. rewrite (Ha _ _ _ _ Hsa Hca), (IH _ _ _ _ Hsr Hcr). reflexivity. }
+      subst ss1.
       pose proof (Hsig f) as Hf.
       destruct (ce f) as [cf|] eqn:Hcf; [|discriminate].
       destruct (sig_lookup f g) as [[ar st]|]; [|contradiction].
@@ -198,6 +207,8 @@ Lemma size_Delay : forall n, size (Delay n) = 2 + n. Proof. reflexivity. Qed.
 Lemma eff_some : forall o ps, eff (Some o, ps) = ps + o. Proof. reflexivity. Qed.
 Lemma eff_none : forall ps, eff (None, ps) = ps. Proof. intros. unfold eff. cbn [fst snd]. lia. Qed.
 Lemma snd_le_eff : forall c, snd c <= eff c. Proof. intros. unfold eff. lia. Qed.
+Lemma eff_ifpos : forall n ps, eff ((if 0 <? n then Some n else None), ps) = ps + n.
+Proof. intros n ps. destruct (N.ltb_spec 0 n); [apply eff_some|rewrite eff_none; lia]. Qed.
 Ltac sz := rewrite ?skels_size_app, ?skels_size_cons, ?skels_size_nil, ?size_FnCall_skels, ?size_Mem, ?size_Feed, ?size_Delay in *;
            rewrite ?skels_size_app, ?skels_size_cons, ?skels_size_nil in *; lia.
 
@@ -292,30 +303,64 @@ Section Layout.
       + intros ev. apply event_at_app_l.
       + intros ev. apply event_at_app_r. lia.
     - (* EIf *)
-      apply andb_prop in Hwf. destruct Hwf as [Hwf Hse]. apply andb_prop in Hwf. destruct Hwf as [Hwf Hst].
       apply andb_prop in Hwf. destruct Hwf as [Hwf Hwe]. apply andb_prop in Hwf. destruct Hwf as [Hwc Hwt].
-      apply negb_true_iff in Hse, Hst. cbn [compile_expr] in Hc.
+      cbn [compile_expr] in Hc.
       destruct (compile_expr ce cn c) as [[[kc sc] c1]|] eqn:Hcc; [|discriminate].
-      destruct (compile_expr ce t c1) as [[[kt st] c2]|] eqn:Hct; [|discriminate].
-      destruct (compile_expr ce e' c2) as [[[ke se] c3]|] eqn:Hce; [|discriminate].
-      destruct (stateless_compile g ce Hsig _ _ _ _ _ Hst Hct) as [-> ->].
-      destruct (stateless_compile g ce Hsig _ _ _ _ _ Hse Hce) as [-> ->].
-      cbn [skels_size map sumN fold_right N.ltb N.compare N.sub] in Hc. inv Hc.
+      destruct (consume c1) as [push0 [o0 ps0]] eqn:Hcons0.
+      destruct (compile_expr ce t (None, ps0)) as [[[kt st] c2]|] eqn:Hct; [|discriminate].
+      destruct (consume c2) as [pusht [ot pst]] eqn:Hconst.
+      destruct (compile_expr ce e' (if 0 <? skels_size st then Some (skels_size st) else None, ps0))
+        as [[[ke se] c3]|] eqn:Hce; [|discriminate].
+      destruct (consume c3) as [pushe [oe pse]] eqn:Hconse. inv Hc.
       destruct (IHc _ _ _ _ _ _ Hcc Hwc) as [Ec Rc]. destruct (IHt _ _ _ _ _ _ Hct Hwt) as [Et Rt].
       destruct (IHe _ _ _ _ _ _ Hce Hwe) as [Ee Re].
-      rewrite app_nil_r. split; [exact Ec|]. intros r m base selfv Hr Hpos Hbd.
-      destruct (Rc r m base selfv Hr Hpos Hbd) as (vc & m1 & Hrc & Hoc).
+      rewrite eff_none in Et, Rt. rewrite eff_ifpos in Ee, Re. cbn [snd] in Rt, Re.
+      assert (Hps0 : ps0 = eff c1) by (destruct c1 as [[o1|] ps1]; cbn [consume] in Hcons0; inv Hcons0; rewrite ?eff_some, ?eff_none; reflexivity).
+      split; [rewrite eff_none; sz|].
+      intros r m base selfv Hr Hpos Hbd.
+      destruct (Rc r m base selfv Hr Hpos ltac:(sz)) as (vc & m1 & Hrc & Hoc).
       pose proof Hoc as (Hp1 & Hl1 & _).
-      cbn [run_code]. rewrite Hrc. cbn [N.ltb N.compare].
+      destruct (consume_pos _ _ _ _ _ _ Hcons0 Hp1) as [_ Hpp0].
+      pose proof (opt_push_ok push0 m1 (base + eff c) (base + eff c) (FnCall sc) (base + eff c)) as Hop0.
+      rewrite Hpp0 in Hop0. pose proof Hop0 as (Hp1' & Hl1' & _).
+      assert (Hoc' : run_ok (base + eff c) (base + eff c + skels_size sc) (base + eff c1)
+                            (event_at (FnCall sc) (base + eff c)) m (opt_push push0 m1))
+        by (eapply run_ok_trans; [exact Hoc|exact Hop0|try sz..|auto|auto]).
+      cbn [run_code]. rewrite Hrc.
       destruct (0 <? vc)%Z.
-      + destruct (Rt r m1 base selfv Hr Hp1 ltac:(rewrite Hl1; sz)) as (vt & m2 & Hrt & Hot).
-        rewrite Hrt. exists vt, m2. split; [reflexivity|].
-        eapply run_ok_trans; [exact Hoc|exact Hot|try sz..|auto|].
-        intros ev. apply event_at_incl. apply incl_nil_l.
-      + destruct (Re r m1 base selfv Hr Hp1 ltac:(rewrite Hl1; sz)) as (vt & m2 & Hrt & Hot).
-        rewrite Hrt. exists vt, m2. split; [reflexivity|].
-        eapply run_ok_trans; [exact Hoc|exact Hot|try sz..|auto|].
-        intros ev. apply event_at_incl. apply incl_nil_l.
+      + destruct (Rt r (opt_push push0 m1) base selfv Hr ltac:(lia) ltac:(rewrite Hl1', Hl1; sz)) as (vt & m2 & Hrt & Hot).
+        rewrite Hrt. pose proof Hot as (Hp2 & Hl2 & _).
+        destruct (consume_pos _ _ _ _ _ _ Hconst Hp2) as [_ Hppt].
+        pose proof (opt_push_ok pusht m2 (base + ps0) (base + ps0) (FnCall st) (base + ps0)) as Hopt.
+        rewrite Hppt in Hopt. pose proof Hopt as (Hp2' & Hl2' & _).
+        pose proof (pad_push_ok (skels_size se) (opt_push pusht m2) (base + ps0) (base + ps0) (FnCall st) (base + ps0)) as Hpad.
+        rewrite Hp2' in Hpad.
+        eexists vt, _. split; [reflexivity|]. cbn [snd].
+        assert (H2 : run_ok (base + ps0) (base + ps0 + skels_size st) (base + eff c2 + skels_size se)
+                            (event_at (FnCall st) (base + ps0)) (opt_push push0 m1)
+                            (if 0 <? skels_size se then do_push (skels_size se) (opt_push pusht m2) else opt_push pusht m2)).
+        { assert (H2a : run_ok (base + ps0) (base + ps0 + skels_size st) (base + eff c2)
+                               (event_at (FnCall st) (base + ps0)) (opt_push push0 m1) (opt_push pusht m2))
+            by (eapply run_ok_trans; [exact Hot|exact Hopt|try sz..|auto|auto]).
+          eapply run_ok_trans; [exact H2a|exact Hpad|try sz..|auto|auto]. }
+        replace (base + (ps0 + skels_size st + skels_size se)) with (base + eff c2 + skels_size se) by lia.
+        eapply run_ok_trans; [exact Hoc'|exact H2|try sz..| |].
+        * intros ev. apply event_at_app_l.
+        * intros ev Hev. eapply event_at_app_r; [|apply event_at_app_l; exact Hev]. lia.
+      + destruct (Re r (opt_push push0 m1) base selfv Hr ltac:(lia) ltac:(rewrite Hl1', Hl1; sz)) as (ve & m2 & Hre & Hoe).
+        rewrite Hre. pose proof Hoe as (Hp2 & Hl2 & _).
+        destruct (consume_pos _ _ _ _ _ _ Hconse Hp2) as [_ Hppe].
+        pose proof (opt_push_ok pushe m2 (base + (ps0 + skels_size st)) (base + (ps0 + skels_size st)) (FnCall se) (base + (ps0 + skels_size st))) as Hope.
+        rewrite Hppe in Hope.
+        eexists ve, _. split; [reflexivity|]. cbn [snd].
+        assert (H2 : run_ok (base + (ps0 + skels_size st)) (base + (ps0 + skels_size st) + skels_size se) (base + eff c3)
+                            (event_at (FnCall se) (base + (ps0 + skels_size st))) (opt_push push0 m1) (opt_push pushe m2)).
+        { eapply run_ok_trans; [exact Hoe|exact Hope|try sz..|auto|auto]. }
+        replace (base + (ps0 + skels_size st + skels_size se)) with (base + eff c3) by lia.
+        eapply run_ok_trans; [exact Hoc'|exact H2|try sz..| |].
+        * intros ev. apply event_at_app_l.
+        * intros ev Hev. apply (event_at_app_r sc (st ++ se) (base + eff c) (base + eff c + skels_size sc)); [reflexivity|].
+          apply (event_at_app_r st se _ (base + (ps0 + skels_size st))); [lia|exact Hev].
     - (* ECall *)
       apply andb_prop in Hwf. destruct Hwf as [Hwargs Hwsig]. rewrite compile_call_eq in Hc.
       destruct (compile_args ce args c) as [[[ks ss1] c1]|] eqn:Hargs; [|discriminate].
@@ -453,11 +498,12 @@ Section Total.
     - apply andb_prop in Hwf. destruct Hwf as [Hwa Hwb]. cbn [compile_expr].
       destruct (IHa _ _ c Hwa) as (ka & sa & c1 & ->). destruct (IHb _ _ c1 Hwb) as (kb & sb & c2 & ->).
       do 3 eexists; reflexivity.
-    - apply andb_prop in Hwf. destruct Hwf as [Hwf _]. apply andb_prop in Hwf. destruct Hwf as [Hwf _].
-      apply andb_prop in Hwf. destruct Hwf as [Hwf Hwe]. apply andb_prop in Hwf. destruct Hwf as [Hwc Hwt].
+    - apply andb_prop in Hwf. destruct Hwf as [Hwf Hwe]. apply andb_prop in Hwf. destruct Hwf as [Hwc Hwt].
       cbn [compile_expr].
-      destruct (IHc _ _ c Hwc) as (kc & sc & c1 & ->). destruct (IHt _ _ c1 Hwt) as (kt & st & c2 & ->).
-      destruct (IHe _ _ c2 Hwe) as (ke & se & c3 & ->). do 3 eexists; reflexivity.
+      destruct (IHc _ _ c Hwc) as (kc & sc & c1 & ->). destruct (consume c1) as [push0 [o0 ps0]].
+      destruct (IHt _ _ (None, ps0) Hwt) as (kt & st & c2 & ->). destruct (consume c2) as [pusht ct].
+      destruct (IHe _ _ (if 0 <? skels_size st then Some (skels_size st) else None, ps0) Hwe) as (ke & se & c3 & ->).
+      destruct (consume c3) as [pushe cte]. do 3 eexists; reflexivity.
     - apply andb_prop in Hwf. destruct Hwf as [Hwargs Hwsig]. rewrite compile_call_eq.
       assert (Hargs : exists ks ss c1, compile_args ce args c = Some (ks, ss, c1)).
       { clear Hwsig. revert c Hwargs. induction IHargs as [|a args Ha _ IH]; intros c Hwargs.
@@ -562,7 +608,7 @@ Proof.
   destruct (compile_expr ce (f_body fd) _) as [[[k ss] [nso ps]]|] eqn:Hc; [|discriminate]. inv Hcf.
   cbn [c_params c_skel]. split; [reflexivity|]. intros Hst. apply orb_false_elim in Hst.
   destruct Hst as [Hself Hst]. rewrite Hself in *.
-  destruct (stateless_compile g ce Hsig _ _ _ _ _ Hst Hc) as [-> _]. reflexivity.
+  rewrite (stateless_compile g ce Hsig _ _ _ _ _ Hst Hc). reflexivity.
 Qed.
 
 Lemma funs_total : forall fs g0 ce0 g,
